@@ -1141,4 +1141,12 @@ func bytesToStrings(bs []byte) []string {
 	return res
 }
 
-func escapeNl(s string) string { return strings.ReplaceAll(s, "\n", "\\\n") }
+func escapeNl(s string) string {
+	s = strings.ReplaceAll(s, "\n", "\\\n")
+	if strings.HasSuffix(s, "\\") {
+		// A final backslash would continue the clause on the next line;
+		// a blank after it is trimmed when the text is read again.
+		s += " "
+	}
+	return s
+}
